@@ -97,14 +97,19 @@ class Run:
         self.solver.add(t)
 
     def sat(self, extra=None):
-        if extra is None:
-            r = self.solver.check()
-        else:
-            self.solver.push()
-            self.solver.add(extra)
-            r = self.solver.check()
-            self.solver.pop()
-        return r != z3.unsat          # unknown counts as feasible (sound: explores more)
+        # feasibility queries get a short budget: unknown / timeout counts as feasible (sound: explores more paths)
+        self.solver.set('timeout', self.ex.feas_timeout_ms)
+        try:
+            if extra is None:
+                r = self.solver.check()
+            else:
+                self.solver.push()
+                self.solver.add(extra)
+                r = self.solver.check()
+                self.solver.pop()
+        finally:
+            self.solver.set('timeout', self.ex.timeout_ms)
+        return r != z3.unsat
 
     def choose(self, options, label=''):
         """options: list of (tag, condition).  Returns the tag of the option this path follows.
